@@ -125,3 +125,20 @@ Definition wobs_eqb (x y : wobs) : bool :=
   Bool.eqb c1 c2 && Bool.eqb t1 t2 && optb Z.eqb r1 r2 && list_eqb Z.eqb b1 b2.
 Definition case_out_eqb (x y : case_out) : bool :=
   optb robs_eqb (fst x) (fst y) && list_eqb (optb wobs_eqb) (snd x) (snd y).
+
+(* entry points used by harness/props/c02.py and c03.py; a buffer is passed as
+   (length, little-endian number) to keep the generated case files small *)
+Definition buf_of (b : nat * Z) : list Z := le_bytes (fst b) (snd b).
+Definition buf_to (l : list Z) : Z * Z := (Z.of_nat (length l), of_le l).
+Definition run_read_case (c : acc * (nat * Z)) : option robs := run_read (fst c) (buf_of (snd c)).
+Definition wobs' := (bool * bool * option Z * (Z * Z))%type.
+Definition run_write_case (c : acc * (nat * Z) * list (cty * Z)) : list (option wobs') :=
+  let '(a, b, ws) := c in
+  map (fun av => option_map (fun o : wobs => let '(cw, tw, rd, root') := o in (cw, tw, rd, buf_to root'))
+                            (run_write a (buf_of b) av)) ws.
+Definition wobs'_eqb (x y : wobs') : bool :=
+  let '(c1, t1, r1, b1) := x in
+  let '(c2, t2, r2, b2) := y in
+  Bool.eqb c1 c2 && Bool.eqb t1 t2 && optb Z.eqb r1 r2 && (fst b1 =? fst b2) && (snd b1 =? snd b2).
+Definition read_out_eqb := optb robs_eqb.
+Definition write_out_eqb := list_eqb (optb wobs'_eqb).
